@@ -52,6 +52,7 @@ static double cond2(M a, double *smax){
   double c = (info == 0 && s[k - 1] > 0) ? s[0] / s[k - 1] : INFINITY; if(smax) *smax = s[0];
   free(cm); free(s); free(work); free(iw); return c;
 }
+static double rowsum_prod(M a){ double p = 1; for(int i = 0; i < a.r; i++){ double s = 0; for(int j = 0; j < a.c; j++) s += fabs(E(a,i,j)); p *= s; } return p > 0 ? p : 1e-300; }
 static double det_lu(M a){
   int n = a.r, info; double *cm = malloc(sizeof(double) * n * n); int *ip = malloc(sizeof(int) * n);
   for(int i = 0; i < n; i++) for(int j = 0; j < n; j++) cm[i + (size_t)j * n] = E(a,i,j);
@@ -126,8 +127,9 @@ static int child(void *arg){
       break; }
     case J_DET: {
       double d = MatrixDeterminant(A), ref = det_lu(a);
-      double r = fabs(d - ref) / (fabs(ref) > 0 ? fabs(ref) : 1e-300);
-      VRT_EMIT("{\"e\":\"Det\",\"id\":%d,\"routine\":\"MatrixDeterminant\",\"n\":%d,\"r\":%ld}", j->idx, a.r, vq12(r));
+      /* the cofactor expansion sums n! products: its rounding error is bounded by ~n eps * prod_i |row_i|_1, whatever the conditioning */
+      double r = fabs(d - ref) / rowsum_prod(a);
+      VRT_EMIT("{\"e\":\"Det\",\"id\":%d,\"routine\":\"MatrixDeterminant\",\"n\":%d,\"r\":%ld,\"rel\":%ld}", j->idx, a.r, vq12(r), vq12(fabs(d - ref) / (fabs(ref) > 0 ? fabs(ref) : 1e-300)));
       if(j->b.r == 1 && a.r <= 4 && vfinite(d) && fabs(d) < 1e6 && fabs(d - round(d)) < 1e-9){
         int p = snprintf(buf, sizeof buf, "{\"e\":\"DetInt\",\"id\":%d,\"routine\":\"MatrixDeterminant\",\"n\":%d,\"A\":", j->idx, a.r); emit_int_matrix(buf, sizeof buf, &p, a);
         snprintf(buf + p, sizeof buf - p, ",\"det\":%ld}", (long)llround(d)); VRT_EMIT("%s", buf);
@@ -136,7 +138,8 @@ static int child(void *arg){
     case J_DETMUL: {   /* det(A B) = det(A) det(B) */
       matrix *B = to_lib(j->b), *P; NewMatrix(&P, a.r, a.r); MatrixDotProduct(A, B, P);
       double da = MatrixDeterminant(A), db = MatrixDeterminant(B), dp = MatrixDeterminant(P);
-      double r = fabs(dp - da * db) / (fabs(da * db) > 0 ? fabs(da * db) : 1e-300);
+      M bm = from_lib(B), pm = from_lib(P);
+      double r = fabs(dp - da * db) / (rowsum_prod(pm) + rowsum_prod(a) * rowsum_prod(bm));
       VRT_EMIT("{\"e\":\"DetMul\",\"id\":%d,\"routine\":\"MatrixDeterminant\",\"n\":%d,\"r\":%ld}", j->idx, a.r, vq12(r));
       break; }
     case J_SOLVE: {    /* b = A x0 ; j->b holds x0 as a column */
@@ -230,8 +233,8 @@ int main(int argc, char **argv){
       int ii; M b2 = gen_square(id % 2 ? PERM : DIAG, n, &ii); j.b = b2; j.what = J_DETMUL; call(&j); fr(b2); }
     { M x0 = mk(n, 1); for(int i = 0; i < n; i++) E(x0,i,0) = vr_norm(&R) + (vr_unif(&R) < 0.5 ? 2 : -2); j.b = x0; j.what = J_SOLVE; call(&j); fr(x0); }
     if(cls == SPD || cls == SYMM || cls == DIAG || cls == TOEP){ j.b = flag; j.what = J_EIG; call(&j); }
-    j.b = flag; j.what = J_PENROSE; call(&j);
-    j.what = J_SVD; call(&j); j.what = J_SVDLAPACK; call(&j);
+    if(c <= 1e3){ j.b = flag; j.what = J_PENROSE; call(&j); }   /* normal equations: cond^2 <= 1e6 */
+    j.b = flag; j.what = J_SVD; call(&j); j.what = J_SVDLAPACK; call(&j);
     fr(a);
     /* rectangular companions: tall (full column rank) for OLS / Penrose / SVD, wide for SVD */
     if(id % 3 == 0){
